@@ -506,8 +506,8 @@ class World:
         for t, n, inst in self.foreign_lists:
             if t == tn:
                 continue
-            if t == "float[]" and et != "dynamic" and TYPE_MAP[et] != "TFloat":
-                continue                    # float instances have no builtin form in the model
+            if t in ("float[]", "net.IPAddress[]") and et != "dynamic" and TYPE_MAP[et] != TYPE_MAP[t[:-2]]:
+                continue                    # float / address instances have no builtin form in the model
             expects = []
             classes = set()
             for x in inst:
@@ -1343,8 +1343,10 @@ def scenario_stage(ctx):
         ctx.count_case(("list-class-scenario", order), nontrivial=True)
         ctx.coverage["evaluations"] += max(0, len(res.get("table", {})) - 1)
         if res["problems"]:
+            staged = [p for p in res["problems"] if p.get("stage")]
             p0 = res["problems"][0]
-            ctx.violation("typed list classes, %s resolution order in a fresh process: %s" % (order, p0["what"]),
+            what = p0["what"] + ("; e.g. %s with value %s" % (staged[0]["what"], staged[0].get("value")) if staged else "")
+            ctx.violation("typed list classes, %s resolution order in a fresh process: %s" % (order, what),
                           dict(kind="listclass", order=order, problems=res["problems"][:10], table=res.get("table")))
             return True
     ctx.notes.append("list-class scenario in fresh interpreters (forward and reverse resolution order): %d whitelist entries" % len(res["table"]))
